@@ -47,7 +47,7 @@ def run(ctx):
         ok = False
         why = "no grouping loop"
         want_flat = tm.join(" ", [tm.idx(WL, tm.binop("band", tm.binop("shr", E, 11 * i), 0x7FF)) for i in reversed(range(nwords))])
-        if tm.veq(val, want_flat):
+        if tm.bveq(val, want_flat):
             ok = True
         elif not loops:
             why = tm.first_diff(val, want_flat)[:300]
@@ -91,33 +91,34 @@ def run(ctx):
         cs = n // 3
         ent_bytes = (11 * n - cs) // 8
         tot_bytes = (11 * n + 7) // 8
-        loops = [lp for lp in s.loops if lp.func == fe.qualname and lp.kind == "for"]
-        ok = False
-        why = "no accumulation loop"
-        if len(loops) == 1:
-            lp = loops[0]
-            dv = [v for v, init in lp.init.items() if init == 0]
-            if len(dv) == 1 and tm.veq(lp.iter, T("enumerate", (T("rev", (words,), tm.LIST),), tm.LIST)):
-                acc = T("acc", (dv[0], lp.depth), tm.INT)
-                idx = T("m:index", (WL, tm.bv(0)), tm.INT)
-                step = tm.binop("bor", acc, tm.binop("shl", idx, tm.mul([11, T("bvi", (0,), tm.INT)])))
-                okstep = tm.veq(lp.body.get(dv[0]), step)
-                DATA = T("fold", (dv[0], step, 0, tm._fz(lp.iter), lp.depth), tm.INT)
-                entropy = tm.i2b(tm.binop("shr", DATA, cs), ent_bytes, "big")
-                want_chk = tm.binop("shr", tm.idx(sha256(entropy), 0), 8 - cs)
-                prov1 = tm.binop("band", tm.idx(tm.i2b(DATA, tot_bytes, "big"), -1), (1 << cs) - 1)
-                prov2 = tm.binop("band", DATA, (1 << cs) - 1)
-                rets = s.returns()
-                okret = len(rets) == 1 and tm.veq(rets[0].value, entropy)
-                okdom = False
-                for e in rets:
-                    for f in rules.all_facts(e):
-                        if isinstance(f, T) and f.op == "cmp" and f.args[0] == "eq":
-                            pair = {tm.show(f.args[1]), tm.show(f.args[2])}
-                            if tm.show(want_chk) in pair and (tm.show(prov1) in pair or tm.show(prov2) in pair):
+        # with the word count fixed the accumulation loop is unrolled: compare the value term itself (any loop shape)
+        ws = [tm.idx(words, i) for i in range(n)]
+        rets = s.returns()
+        lookups = []
+        for w in ws:  # a RAISING lookup of each word: list.index or a subscript of an inverse map
+            cands = [t for e in rets for t in tm.subterms(e.value) if isinstance(t, T) and ((t.op == "m:index" and tm.veq(t.args[1], w)) or (t.op == "lookup" and tm.veq(t.args[1], w)))]
+            lookups.append(cands[0] if cands else None)
+        ok, why = False, "a word is not looked up with a raising lookup (list.index / subscript)"
+        if all(x is not None for x in lookups):
+            DATA = 0
+            for i, ix in enumerate(lookups):
+                DATA = tm.binop("bor", DATA, tm.binop("shl", ix, 11 * (n - 1 - i)))
+            entropy = tm.i2b(tm.binop("shr", DATA, cs), ent_bytes, "big")
+            okret = len(rets) == 1 and tm.bveq(rets[0].value, entropy)
+            want_chk = tm.binop("shr", tm.idx(sha256(entropy), 0), 8 - cs)
+            provs = [tm.binop("band", tm.idx(tm.i2b(DATA, tot_bytes, "big"), -1), (1 << cs) - 1), tm.binop("band", DATA, (1 << cs) - 1)]
+            okdom = False
+            for e in rets:
+                for f in rules.all_facts(e):
+                    if isinstance(f, T) and f.op == "cmp" and f.args[0] == "eq":
+                        x, y = f.args[1], f.args[2]
+                        for pr in provs:
+                            if (tm.bveq(x, want_chk) and tm.bveq(y, pr)) or (tm.bveq(y, want_chk) and tm.bveq(x, pr)):
                                 okdom = True
-                ok = okstep and okret and okdom
-                why = "step ok=%s, entropy ok=%s, checksum comparison dominates=%s" % (okstep, okret, okdom)
+            ok = okret and okdom
+            why = "entropy = (value >> %d) as %d bytes: %s; return dominated by checksum comparison: %s" % (cs, ent_bytes, okret, okdom)
+            if not okret and rets:
+                why += "; " + tm.first_diff(tm.bvnorm(rets[0].value), tm.bvnorm(entropy))[:200]
         R.check("C10.2", "TERM-EQ", fe, "%d words: raising list lookup, value fold, entropy = value >> %d as %d bytes, checksum compared" % (n, cs, ent_bytes), ok,
                 "mnemonic decoding for %d words differs from BIP39 (%s)" % (n, why),
                 example="a %d-word phrase with a wrong last word, or a word that is not in the list" % n)
